@@ -139,7 +139,10 @@ def check_circ(case):
     dis = []
     if k == 4 and rot == 0 and dirn == 1:
         dis += check_shape_points(r, c)
-    arcs = [("native", svg.Arc(pt(a0), pt(a0 + signed), P(*c), P(c[0] + r, c[1]), P(c[0], c[1] + r), signed))]
+    arcs = [("native", svg.Arc(pt(a0), pt(a0 + signed), P(*c), P(c[0] + r, c[1]), P(c[0], c[1] + r), signed)),
+            # the extent given as an Angle object (an extent is not an angle modulo a turn: one whole turn is not nothing)
+            ("native, sweep as Angle", svg.Arc(start=pt(a0), end=pt(a0 + signed), center=P(*c), prx=P(c[0] + r, c[1]), pry=P(c[0], c[1] + r),
+                                               sweep=svg.Angle.radians(signed)))]
     if k < 4:
         arcs.append(("svg", svg.Arc(pt(a0), r, r, 0, k > 2, dirn > 0, pt(a0 + signed))))
     for name, arc in arcs:
